@@ -11,7 +11,11 @@ from __future__ import annotations
 import time
 from fractions import Fraction
 
+import sys
+
 import z3
+
+sys.set_int_max_str_digits(0)
 
 
 class PathAbort(BaseException):
